@@ -637,6 +637,13 @@ NSealed = typing.NewType("NSealed", Sealed)
 ASealed = typing.TypeAliasType("ASealed", Sealed)
 Mode = typing.Literal["r", "w"]
 ModeAlias = typing.TypeAliasType("ModeAlias", typing.Literal["r", "w"])
+# an alias whose VALUE is a qualified type (a class-level constant given a name)
+SharedInt = typing.TypeAliasType("SharedInt", typing.ClassVar[int])
+SharedK = typing.TypeAliasType("SharedK", typing.ClassVar[K])
+NSharedK = typing.NewType("NSharedK", SharedK)
+Limit = typing.TypeAliasType("Limit", typing.Final[int])
+LimitK = typing.TypeAliasType("LimitK", typing.Final[K])
+NLimitK = typing.NewType("NLimitK", LimitK)
 """
 # (wrapper expression, base expression, intermediate wrappers that a caller may look up in between)
 DEEP_CHAINS = [("NA", "K", ["A"]), ("NN", "K", ["N"]), ("NNA", "K", ["NA", "A"]), ("AN", "K", ["N"]), ("AA", "K", ["A"]),
@@ -646,7 +653,9 @@ DEEP_CHAINS = [("NA", "K", ["A"]), ("NN", "K", ["N"]), ("NNA", "K", ["NA", "A"])
                ("typing.ClassVar[ASealed]", "Sealed", ["ASealed"]),
                # a qualified LITERAL unwraps to the literal like any other qualified type
                ("typing.ClassVar[typing.Literal['r', 'w']]", "Mode", []), ("typing.Final[typing.Literal['r', 'w']]", "Mode", []),
-               ("ModeAlias", "Mode", []), ("typing.ClassVar[ModeAlias]", "Mode", ["ModeAlias"]), ("typing.Final[ModeAlias]", "Mode", ["ModeAlias"])]
+               ("ModeAlias", "Mode", []), ("typing.ClassVar[ModeAlias]", "Mode", ["ModeAlias"]), ("typing.Final[ModeAlias]", "Mode", ["ModeAlias"]),
+               ("SharedInt", "int", []), ("SharedK", "K", ["A"]), ("NSharedK", "K", ["SharedK"]),
+               ("Limit", "int", []), ("LimitK", "K", ["A"]), ("NLimitK", "K", ["LimitK"]), ("typing.ClassVar[Limit]", "int", ["Limit"])]
 
 
 def _deep_child(_job):
